@@ -78,8 +78,15 @@ impl ExclusiveExtractor for MultipartBody {
             })?;
         // The boundary is the "boundary" parameter of the content-type
         // header (a token or a quoted string, among other parameters).
+        // (Optional whitespace is allowed around each ';', which the media
+        // type parser behind `parse_boundary` does not accept everywhere.)
+        let content_type = content_type
+            .split(';')
+            .map(|part| part.trim())
+            .collect::<Vec<_>>()
+            .join("; ");
         let boundary =
-            multer::parse_boundary(content_type).map_err(|e| match e {
+            multer::parse_boundary(&content_type).map_err(|e| match e {
                 multer::Error::NoBoundary => HttpError::for_bad_request(
                     None,
                     "missing boundary in content-type header".to_string(),
